@@ -129,6 +129,33 @@ def canonical (raw):
   return True
 
 
+def strip_trailer (frame):
+  """The frame without what follows its own payload, for the payloads that
+  say where they end: an IPv4 datagram (total length), an LLDPDU (end TLV),
+  an 802.3 frame (length field)."""
+  try:
+    off = 12
+    while frame[off:off + 2] == b"\x81\x00": off += 4
+    t = struct.unpack_from("!H", frame, off)[0]
+    off += 2
+    if t < 0x600:
+      return frame[:off + t] if off + t < len(frame) else frame
+    if t == 0x88cc:
+      p = off
+      while p + 2 <= len(frame):
+        h = struct.unpack_from("!H", frame, p)[0]
+        p += 2 + (h & 0x1ff)
+        if h >> 9 == 0: break
+      return frame[:p] if p < len(frame) else frame
+    d = F.parse(frame)
+    ipd = d.get("ip")
+    if ipd is not None and d.get("l3type") == 0x0800 and 0 < ipd["end"] < len(frame):
+      return frame[:ipd["end"]]
+  except Exception:
+    pass
+  return frame
+
+
 def _complete_quote (q):
   from pvm.ref import inet
   if len(q) < 28 or q[0] != 0x45: return False
@@ -247,8 +274,10 @@ def run_case (case, rep):
       else:
         sw.inject(in_port, raw)
       if accepted:
-        for r in (rig.rx_lo, rig.rx_hi):
-          r[in_port][0] += 1; r[in_port][1] += len(raw)
+        # (the recorded finding about padding shows in the byte counter too:
+        #  between the frame without its padding and the frame as received)
+        rig.rx_lo[in_port][0] += 1; rig.rx_lo[in_port][1] += len(strip_trailer(raw))
+        rig.rx_hi[in_port][0] += 1; rig.rx_hi[in_port][1] += len(raw)
       else:
         rep.count("ingress_dropped")
       first = ofwire.dec_stream(sw.take_bytes())
@@ -259,6 +288,14 @@ def run_case (case, rep):
           if announced else []
       got = [(m["reason"], m["in_port"], m["data"], m["total_len"]) for m in first
              if m["name"] == "packet_in"]
+      bare = strip_trailer(raw)
+      if want and bare != raw and got == [(want[0][0], in_port, bare, len(bare))] \
+         and len(first) == 1 and not first_out:
+        # (the recorded finding about padding, seen in the packet-in)
+        rep.violation("C12 Ethernet padding behind the frame's own payload is not part of what is emitted",
+                      "packet-in for a frame of %d octets carries %d (total_len %d)" %
+                      (len(raw), len(bare), len(bare)), case)
+        want = [(want[0][0], in_port, bare, len(bare))]
       if first_out or got != want or len(first) != len(got):
         fire("frame that %s: packet-in differs" %
              ("misses the table" if via != "buffered_action" else
@@ -302,8 +339,10 @@ def run_case (case, rep):
       sw.inject(in_port, raw)
       if accepted:
         rep.count("flow_hits")
-        for r in (rig.rx_lo, rig.rx_hi):
-          r[in_port][0] += 1; r[in_port][1] += len(raw)
+        # (the recorded finding about padding shows in the byte counter too:
+        #  between the frame without its padding and the frame as received)
+        rig.rx_lo[in_port][0] += 1; rig.rx_lo[in_port][1] += len(strip_trailer(raw))
+        rig.rx_hi[in_port][0] += 1; rig.rx_hi[in_port][1] += len(raw)
       else:
         rep.count("ingress_dropped")
   except Exception:
@@ -320,9 +359,10 @@ def run_case (case, rep):
     first max_len bytes travel, the total length tells the rest."""
     d = m["data"]
     for (r, p, f, ml) in want:
-      if m["buffer_id"] != 0xffffffff and len(f) > ml and d == f[:ml] \
-         and m["total_len"] == len(f) and (r, p) == (m["reason"], m["in_port"]):
-        return (r, p, f)
+      for g in (f, strip_trailer(f)):
+        if m["buffer_id"] != 0xffffffff and len(g) > ml and d == g[:ml] \
+           and m["total_len"] == len(g) and (r, p) == (m["reason"], m["in_port"]):
+          return (r, p, g)
     return (m["reason"], m["in_port"], d)
   want_pins = []
   if accepted:
@@ -351,6 +391,18 @@ def run_case (case, rep):
     last = (e_out, e_pin)
     if sorted(out) == sorted(e_out) and sorted(pins_obs) == sorted(e_pin):
       ok = True; break
+    # the same, but with the octets behind the IPv4 datagram (Ethernet
+    # padding of a short frame) missing from what comes out: a recorded
+    # finding; everything else about these frames is still judged
+    e_out2 = [(p_, strip_trailer(b_)) for p_, b_ in e_out]
+    e_pin2 = [(r_, p_, strip_trailer(b_)) for r_, p_, b_ in e_pin]
+    if (e_out2 != e_out or e_pin2 != e_pin) and sorted(out) == sorted(e_out2) \
+       and sorted(pins_obs) in (sorted(e_pin), sorted(e_pin2)):
+      rep.violation("C12 Ethernet padding behind the frame's own payload is not part of what is emitted",
+                    "frame of %d octets (%d without its padding) comes out as %r octets" %
+                    (len(raw), len(strip_trailer(raw)),
+                     sorted(set(len(b_) for _, b_ in out))), case)
+      ok = True; e_out = e_out2; last = (e_out, e_pin); break
   e_out, e_pin = last
   if not ok:
     if sorted(p for p, _ in out) != sorted(p for p, _ in e_out):
@@ -507,7 +559,7 @@ def gen_case (rng):
                      "qinq", "arp_rep", "lldp"])
   dst = None
   if rng.random() < 0.1: dst = OA.STP_MAC
-  raw, desc = framegen.gen_frame(rng, kind, pad=False, dst=dst,
+  raw, desc = framegen.gen_frame(rng, kind, pad=rng.random() < 0.12, dst=dst,
                                  payload_len=rng.choice([0, 1, 2, 5, 18, 19,
                                                          100, 101]))
   if via != "packet_out":
